@@ -192,6 +192,22 @@ def explore(res, rng, n):
             fail(res, 'first column is not the normalised alignment vector', case, B[:, 0].tolist())
         if not np.allclose(J @ M, B, atol=1e-8):
             fail(res, 'J A != B', case, (J @ M).tolist())
+    # non-symmetric corpus (row norms differ from column norms), default and explicit alignment vectors
+    for Mc, vc in (([[1, 1], [0, 1]], None), ([[1, 1, 0], [0, 1, 0], [0, 0, 1]], None), ([[0, 0, 1], [0, 1, 1], [1, 0, 1]], [0, 1, 1]),
+                   ([[2, 0, 0], [3, 1, 0], [1, 4, 1]], None), ([[1, 5], [0, 1]], [1, 1])):
+        Mc = np.array(Mc, dtype=float)
+        res.evaluations += 1
+        res.stat('gram_schmidt_nonsymmetric_corpus')
+        case = {'A': Mc.tolist(), 'alignVec': vc}
+        try:
+            B, J = utils.gramSchmidOrth(Mc.tolist(), vc) if vc is not None else utils.gramSchmidOrth(Mc.tolist())
+        except Exception as e:  # noqa
+            fail(res, 'Gram-Schmidt raised on a full-rank matrix: ' + type(e).__name__, case, None)
+            continue
+        B, J = np.array(B), np.array(J)
+        a0 = np.array(vc, dtype=float) if vc is not None else Mc[:, 0]
+        if not np.allclose(B.T @ B, np.eye(len(Mc)), atol=1e-9) or not np.allclose(B[:, 0], a0 / np.linalg.norm(a0), atol=1e-9) or not np.allclose(J @ Mc, B, atol=1e-8):
+            fail(res, 'Gram-Schmidt columns not orthonormal / first column / J A = B', case, np.nan_to_num(B, nan=-999.0).tolist())
     # nearly dependent trailing columns (condition number up to 3e7): orthonormal to 1e-7, the tolerance of the library's own tests
     for e in (1e-4, 1e-6, 1e-7):
         M = np.array([[1, 0, 0, 0], [0, 1, e, 0], [0, 1, 0, e], [0, 1, 0, 0]], dtype=float).T
